@@ -60,6 +60,10 @@ CONSTS = [
     ("OPCODE_UPDATE", "crates/proto/src/op/op_code.rs", r"^\s*OpCode::Update => (\d+),", "u8::from(OpCode::Update)"),
     ("RCODE_REFUSED", "crates/proto/src/op/response_code.rs", r"^\s*ResponseCode::Refused => (\d+),", "u16::from(ResponseCode::Refused)"),
     ("RCODE_NOTAUTH", "crates/proto/src/op/response_code.rs", r"^\s*ResponseCode::NotAuth => (\d+),", "u16::from(ResponseCode::NotAuth)"),
+    ("SERVER_UDP_NO_EDNS_LIMIT", "crates/server/src/zone_handler/message_response.rs", r"// restricts the message to 512 bytes\s*None => (\d+),", "MessageResponse::encode: UDP limit without EDNS"),
+    ("SERVER_FALLBACK_LIMIT", "crates/server/src/zone_handler/message_response.rs", r"bytes\.clear\(\);\s*let mut encoder = BinEncoder::new\(&mut bytes\);\s*encoder\.set_max_size\((\d+)\);", "MessageResponse::encode: SERVFAIL fallback limit"),
+    ("EDNS_MIN_PAYLOAD", "crates/proto/src/rr/dns_class.rs", r"pub fn for_opt[\s\S]*?value\.max\((\d+)\)", "DNSClass::for_opt lower clamp"),
+    ("CATALOG_MIN_PAYLOAD", "crates/server/src/zone_handler/catalog.rs", r"resp_edns\.set_max_payload\(req_edns\.max_payload\(\)\.max\((\d+)\)\);", "Catalog: response EDNS payload lower clamp"),
 ]
 
 
